@@ -6,6 +6,7 @@ K-bits: Fq::from_okm, Fr::from_okm, Fq2::from_ro for all 64/48/128-byte blocks (
 import hashlib
 from mirsym import load, ref
 from . import kani_common as K
+from . import c13_euf
 
 
 # ---- independent transcription of RFC 9380 section 5.2 / 5.3 over hashlib (supplementary native differential: sampling on a boundary
@@ -37,6 +38,42 @@ def _bytes(tag, n):
         out += hashlib.sha256(b'%s-%d' % (tag.encode(), i)).digest()
         i += 1
     return out[:n]
+
+
+def confirm_euf_failures(ctx):
+    """a failed EUF obligation is a solver model over the uninterpreted hash; before it is reported the same lengths are replayed through
+    the real code with a real hash of that digest size (SHA-256 for b = 32, SHA-512 for b = 64, SHAKE128 for the XOF) against hashlib"""
+    chk = ctx.chk
+    failed = [o for o in chk.failed() if isinstance(o.meta, dict) and 'variant' in o.meta]
+    if not failed:
+        return
+    failed.sort(key=lambda o: o.meta['b'] not in (32, 64))      # natively reproducible points first (violations are de-duplicated by key)
+    n = load.Native('release')
+    try:
+        for o in failed:
+            o.handled = True
+            pt = o.meta
+            key = 'expand-euf:%s:%s' % (pt['variant'], 'abort' if 'abort' in o.name else 'dst255' if pt['dst_len'] == 255 else 'bytes')
+            v = {('xmd', 32): ('xmd256', 'sha256', rfc_xmd), ('xmd', 64): ('xmd512', 'sha512', rfc_xmd), ('xof', 32): ('xof128', 'shake_128', rfc_xof)}.get((pt['variant'], pt['b']))
+            rep = {'obligation': o.name, 'grid_point': pt, 'solver_model': o.model, 'detail': o.text}
+            if v is None:
+                # digest sizes 1 and 2 exist only as the Kani mocks; the solver model stands on its own here
+                ctx.violation(key, 'RFC 9380 obligation fails on the real generic code with the hash uninterpreted (digest size %d: no native hash of that size; '
+                              'see the Kani mock harnesses): %s %s' % (pt['b'], o.name, (o.text or '')[:160]), rep)
+                continue
+            m, d = _bytes('m%d' % pt['msg_len'], pt['msg_len']), _bytes('d%d' % pt['dst_len'], pt['dst_len'])
+            cmd = 'expand %s %s %s %d' % (v[0], m.hex() or '-', d.hex() or '-', pt['len'])
+            got = n.run([cmd])[0].strip()
+            want = v[2](v[1], m, d, pt['len'])
+            wtxt = 'PANIC' if want is None else ('%d %s' % (pt['len'], want.hex())).strip()
+            rep.update(cmd=cmd, expected=wtxt, got=got, profile='release')
+            if got != wtxt:
+                ctx.violation(key, 'expand_message differs from RFC 9380 5.3: solver counterexample over the uninterpreted hash at %s, reproduced natively with %s: got %s, want %s'
+                              % (pt, v[1], got[:50], wtxt[:50]), rep)
+            else:
+                ctx.inconclusive('EUF counterexample at %s does not reproduce natively with %s (%s)' % (pt, v[1], o.name))
+    finally:
+        n.close()
 
 
 def native_differential(ctx):
@@ -105,14 +142,30 @@ def native_differential(ctx):
 def run(ctx):
     chk = ctx.chk
     ctx.level = 'model_checking'
-    ctx.explanation = 'Kani/CBMC bounded model checking of the real generic expand_message / hash_to_field / from_okm code over mocks, all bytes symbolic, lengths from a grid'
+    ctx.explanation = ('S-euf: the real generic expand_message_xmd / _xof / hash_to_field bodies executed from MIR with the hash uninterpreted, every message and tag byte '
+                       'symbolic, lengths from a boundary grid, decided by z3 (failing obligations replayed natively through SHA-2 / SHAKE); '
+                       'K: Kani/CBMC bounded model checking of the same code over mock hashes and of from_okm / from_ro for all blocks')
+    if not ctx.only or 'euf' in ctx.only:
+        c13_euf.run_part(ctx)
+        chk.discharge()
+        confirm_euf_failures(ctx)
+        for g_ in chk.grounds:
+            if not g_[1]:
+                chk.ground_handled = getattr(chk, 'ground_handled', {})
+                chk.ground_handled[g_[0]] = True
+                ctx.violation('h2f-euf:' + g_[0].split(':')[0], 'fact fails: %s (%s)' % (g_[0], g_[2]), {'fact': g_[0], 'detail': g_[2]})
+        if ctx.only and ctx.only == {'euf'}:
+            return
     K.run_harnesses(ctx, 'c13')
     K.report_failures(ctx, 'expand-message')
     native_differential(ctx)
     chk.assumptions += ['mock hash: 16-bit position-sensitive rolling state (a mutated composition has to agree with the RFC transcription for every symbolic byte to escape); '
                         'SHA-256/512 and SHAKE internals, and vec_result of real XOF readers, are not modelled',
                         'from_okm: Fq/Fr::mul_assign recorded by a stub (the literal multipliers F_2_256, F_2_192 equal 2^256 R, 2^192 R: C08 ground facts; Montgomery product: C08 S-lia)']
-    chk.bounds.update({'lengths (msg, dst, len_in_bytes)': 'quick: xmd (3,3,7) (0,1,2) (5,0,4) (1,3,0), xof (3,3,7) (0,0,1); thorough adds (4,2,9) (8,8,16), xof (5,2,0) (2,8,16), 255 blocks served',
+    chk.bounds.update({'S-euf grid (digest b, block s, |msg|, |dst|, len)': 'b,s in (32,64) (64,128) (2,4) (1,4); |dst| in 0,1,254,255; |msg| in 0,1,s-1,s,s+1; len in 0,1,b-1,b,b+1,2b,3b-1, '
+                       '254b..256b+1 for the block limit; XOF len up to 256 (quick) / 65535 (thorough); hash_to_field L in 48,64,128, count 0,1,2,5 (quick) / 0..8 (thorough); '
+                       'lengths outside the grid are outside the claim',
+                       'Kani lengths (msg, dst, len_in_bytes)': 'quick: xmd (3,3,7) (0,1,2) (5,0,4) (1,3,0), xof (3,3,7) (0,0,1); thorough adds (4,2,9) (8,8,16), xof (5,2,0) (2,8,16), 255 blocks served',
                        'limit': 'ell = 256 with a 1-byte digest aborts (should_panic harness); ell = 255 returns 255 bytes (thorough)',
                        'hash_to_field counts': '0..2 (quick), 3 (thorough); element length 3 bytes (mock)', 'reduction blocks': 'all 2^512 / 2^384 / 2^1024 byte blocks'})
     chk.trusted += ['Kani 0.68 / CBMC 6.11']
